@@ -82,6 +82,9 @@ def files_for(case, rng, work):
             lines += ["@common:user_crate,user_Av", "@var:uscl = 1.0e17*user_crate", "@format:idx,R,R,R,P,P,P,Tmin,Tmax,rate"]
             for r in gas_reactions(rng, "krome"):
                 lines.append(encode.krome_line(r, 3, 3))
+            # directives may appear anywhere in a KROME file: symbols introduced after the first reaction
+            lines += ["@common:user_late", "@var:ulate = 2.0*user_late",
+                      encode.krome_line({"reactants": ["O", "H"], "products": ["OH"], "idx": 9, "tmin": -1, "tmax": -1, "rate": "1.0d-18*ulate*(T32)**0.5"}, 3, 3)]
         else:
             reacs = list(gas_reactions(rng, fmt, case["with_h2"]))
             if model and fmt in ("leeds", "uclchem"):
